@@ -42,6 +42,7 @@ EXPLANATION += (" R-C13-11: the rule R-C12-8 evaluated for this property (the co
 EXPLANATION += (" R-C13-12: the index levels cached by the broadcaster are read as pandas Index objects only - not through .values / .to_numpy() / np.asarray / .tolist(), which change the type of time-zone aware, categorical, interval and nullable keys.")
 EXPLANATION += (" R-C13-1 covers exceptional exits too (defect repaired in /repo 4dafbb3): each acquisition (placeholder names, index re-coding) is immediately followed by a try statement whose finally clause contains the matching release.")
 EXPLANATION += (" R-C13-13 (defect repaired in /repo faf7999): the step that turns index codes back into keys (subscript of a cached level by computed positions) is accompanied by a test for missing codes; after the outer alignment of partially shared levels rows that only one operand contributes have NaN codes.")
+EXPLANATION += (" R-C13-14: the parameter-set branch of Broadcaster.broadcast is guarded by self._obj.index.names == [None] (one unnamed level).")
 ASSUMPTIONS = [
     "pandas DataFrame.align(Series, axis=0) may return the frame with its previous index when the joined index requires no row "
     "movement on the frame side (behaviour of the installed pandas; the repository wraps the series for that reason)",
@@ -335,6 +336,7 @@ def run(ctx):
     ctx.attempt(_r11)
     ctx.attempt(_r12)
     ctx.attempt(_r13)
+    ctx.attempt(_r14)
 
 
 def _kind_tests(test):
@@ -558,6 +560,30 @@ def unguarded_code_decodes(cls_node):
             if not guarded:
                 out.append((n, fn))
     return out
+
+
+def _r14(ctx):
+    """R-C13-14: the 'parameter set' branch of Broadcaster.broadcast (a Series whose rows become COLUMNS of the result) is taken for a
+    Series with ONE unnamed index level only (`index.names == [None]`).  A test that also holds for a MultiIndex whose levels are all
+    unnamed (`set(names) == {None}`, `all(n is None ...)`, `index.name is None`) turns an ordinary signal over several unnamed levels
+    into a wide frame instead of cross-joining it."""
+    prog = ctx.prog
+    ctx.rule("R-C13-14", floor=1, what="the parameter-set branch of broadcast is guarded by index.names == [None]")
+    f = prog.func(MOD + ":Broadcaster.broadcast")
+    branches = [s for s in walk_function(f.node) if isinstance(s, ast.If) and any(
+        isinstance(c_, ast.Call) and (call_name(c_) or "").endswith("DataFrame") and any(k.arg == "columns" for k in c_.keywords)
+        for b_ in s.body for c_ in ast.walk(b_))]
+    if len(branches) != 1:
+        raise AnalysisError("Broadcaster.broadcast: parameter-set branch not found")
+    t = branches[0].test
+    ok = any(isinstance(c_, ast.Compare) and len(c_.ops) == 1 and isinstance(c_.ops[0], ast.Eq) and
+             {norm_text(c_.left), norm_text(c_.comparators[0])} == {"self._obj.index.names", "[None]"} for c_ in ast.walk(t))
+    if ok:
+        ctx.holds(f, branches[0], "parameter-set branch only for a single unnamed index level")
+    else:
+        ctx.violated(f, branches[0], "the parameter-set branch (rows of the Series become columns) is guarded by `%s`, which is not "
+                     "`self._obj.index.names == [None]`: a Series over several unnamed levels is no parameter set" % norm_text(t)[:80],
+                     text="parameter-set branch guard")
 
 
 def _r13(ctx):
